@@ -132,6 +132,41 @@ def run_unit(unit, tier, seed, do_canary=True):
             ur.failures, ur.undecided, ur.functions, ur.lemmas = [], [], ur2.functions, ur2.lemmas
             ur.verus = res2
             ur.seeds.append({'note': 'first run failed on baseline text, retry with rlimit 30 succeeded'})
+    # PROOF REPAIR on changed text: a behaviour-preserving edit that introduces a local (hoisted field read, temporary) makes loop
+    # invariants unprovable although nothing changed semantically.  Before anything is reported, the failing changed functions are
+    # re-generated with the automatic invariants `x == PLACE` for their NEW immutable bindings `let x = PLACE;` (vgen.build_fn) and
+    # verified again; a function is accepted only if Verus then discharges every one of its obligations (sound: the added
+    # invariants are checked, not assumed).
+    if ur.failures and ur.changed and base:
+        try:
+            failing = set(fl['fn'] for fl in ur.failures if fl['fn'])
+            auto = {}
+            for f in meta['functions']:
+                if f['key'] in failing and f['key'] in ur.changed and f['key'] in base.get('functions', {}):
+                    names = vgen.new_let_names(current_text(f), base['functions'][f['key']].get('text', ''))
+                    if names:
+                        auto[f['key']] = names
+            if auto:
+                rtext, rmeta = vgen.generate(tpl, REPO, auto_inv=auto)
+                applied = dict((f['key'], f.get('auto_invariants')) for f in rmeta['functions'] if f.get('auto_invariants'))
+                if applied:
+                    rpath = os.path.join(BUILD, unit + '_repair.rs')
+                    open(rpath, 'w').write(rtext)
+                    res3 = vrun.run_verus(rpath, None, None, 20, 6)
+                    ur3 = UnitResult(unit)
+                    ur3.changed = ur.changed
+                    analyse_main(ur3, res3, rmeta, rtext)
+                    if not ur3.undecided:
+                        still = set(fl['fn'] for fl in ur3.failures)
+                        repaired = [k for k in applied if k in failing and k not in still]
+                        if repaired:
+                            ur.failures = [fl for fl in ur.failures if fl['fn'] not in repaired]
+                            ok3 = dict((r['key'], r) for r in ur3.functions)
+                            ur.functions = [ok3[r['key']] if r['key'] in repaired and r['key'] in ok3 else r for r in ur.functions]
+                            ur.seeds.append({'note': 'proof repair: automatic invariants for new local bindings made the proof go through',
+                                             'functions': dict((k, applied[k]) for k in repaired)})
+        except Exception as ex:
+            ur.seeds.append({'note': 'proof repair attempt crashed (ignored): %r' % (ex,)})
     if do_canary:
         cres = jobs['canary'].result()
         ur.canary = cres
